@@ -1,8 +1,8 @@
 package main
 
 import (
-	"go/token"
 	"fmt"
+	"go/token"
 	"go/types"
 	"strings"
 
@@ -98,8 +98,8 @@ var c04JSON = map[string]string{
 
 // tls.Unmarshal callers that do not promise a complete parse
 var c04RestExceptions = map[string]string{
-	"x509util.showCTSCT":                      "pretty-printer: shows whatever decodes, result is text only",
-	"tls.Unmarshal":                           "the API itself: forwards to UnmarshalWithParams and hands the remaining bytes to its caller",
+	"x509util.showCTSCT": "pretty-printer: shows whatever decodes, result is text only",
+	"tls.Unmarshal":      "the API itself: forwards to UnmarshalWithParams and hands the remaining bytes to its caller",
 }
 
 // sites where trailing bytes are recorded through a collector instead of a return
